@@ -26,6 +26,12 @@ PEAK_NAMES = ('pga', 'pgv', 'pgd')
 def build(tier, seed):
     L = 6 if tier == 'quick' else 8
     cases = [list(w) for w in words(SIGMA, 2, L)]
+    # long records with closed-form / exactly summable content (size-dependent paths, accumulation of rounding in low precision)
+    longs = [['long', kind, nlong, dty] for kind in ('const', 'linear', 'sawtooth') for nlong in ((20000,) if tier == 'quick' else (20000, 70001))
+             for dty in ('float64', 'float32', 'int64')]
+    step = max(1, len(cases) // len(longs))
+    for j, c in enumerate(longs):
+        cases.insert(j * step, c)
     return {
         'cases': cases,
         'rule': 'all words over {-2..2} of length 2..%d (one pool case per word) x dt in %s x trap in {T,F} x '
@@ -33,7 +39,7 @@ def build(tier, seed):
                 'generator}; non-trivial = word not identically zero' % (L, list(DTS)),
         'bounds': {'alphabet': SIGMA, 'max_len': L, 'dt': DTS, 'trap': [True, False]},
         'required_classes': ['trap', 'rect', 'const-acc', 'linear-acc', 'neg-peak-dominant', 'pos-peak-dominant',
-                             'prefix-edge', 'int-input', 'object-reused', 'dtype-variant', 'extreme-scale', 'object-after-edit', 'object-after-query', 'narrow-int-record', 'peak-read-order', 'odd-dt'],
+                             'prefix-edge', 'int-input', 'object-reused', 'dtype-variant', 'extreme-scale', 'object-after-edit', 'object-after-query', 'narrow-int-record', 'peak-read-order', 'odd-dt', 'low-precision-record', 'long-closed-form'],
         'assumptions': ['sample values outside {-2..2} and lengths above the bound are not examined',
                         'dt only on the menu', 'reference: exact rational cumulative sums (fractions.Fraction)'],
     }
@@ -62,7 +68,72 @@ def fl(xs):
     return np.array([float(x) for x in xs])
 
 
+def long_record(kind, n):
+    i = np.arange(n)
+    if kind == 'const':
+        return np.full(n, 2, dtype=np.int64), 1
+    if kind == 'linear':
+        return i.astype(np.int64), 1024            # a_i = i / 1024 (exact in single precision up to 2^24)
+    return ((i % 7) - 3).astype(np.int64), 1        # sawtooth over {-3..3}
+
+
+def run_long(case):
+    r = Res()
+    _, kind, n, dty = case
+    num, den = long_record(kind, n)
+    r.nontrivial += 1
+    r.cls('long-closed-form')
+    rec = (num / den).astype(dty) if dty != 'int64' else None
+    if dty == 'int64':
+        if den != 1:
+            r.disabled['long linear record is not integer valued'] += 1
+            return r
+        rec = num.copy()
+    for dt in (0.01, 0.5):
+        for trap in (True, False):
+            # exact integer cumulative sums: v_i = dt/(2 den) * V_i, d_i = dt^2/(4 den) * D_i (trapezoid); v_i = dt/den * V_i, d_i = dt^2/den * D_i (rectangle)
+            a = [int(x) for x in num]
+            V = [0] * n
+            D = [0] * n
+            if trap:
+                for i in range(1, n):
+                    V[i] = V[i - 1] + a[i] + a[i - 1]
+                for i in range(1, n):
+                    D[i] = D[i - 1] + V[i] + V[i - 1]
+                vr = np.array([float(Fraction(x) * Fraction(dt) / (2 * den)) for x in V[:: max(1, n // 400)]])
+                dr = np.array([float(Fraction(x) * Fraction(dt) ** 2 / (4 * den)) for x in D[:: max(1, n // 400)]])
+            else:
+                for i in range(1, n):
+                    V[i] = V[i - 1] + a[i - 1]
+                for i in range(1, n):
+                    D[i] = D[i - 1] + V[i]
+                vr = np.array([float(Fraction(x) * Fraction(dt) / den) for x in V[:: max(1, n // 400)]])
+                dr = np.array([float(Fraction(x) * Fraction(dt) ** 2 / den) for x in D[:: max(1, n // 400)]])
+            tolr = 1e-9 if dty != 'float32' else 1e-6
+            sv, sd = float(np.max(np.abs(vr))) or 1.0, float(np.max(np.abs(dr))) or 1.0
+            for ent, fn in (('array', lambda: displacements.calc_velo_and_disp_from_accel_arr(rec, dt, trap=trap)),
+                            ('object', lambda: (lambda s_: (s_.generate_displacement_and_velocity_series(trap=trap), (s_.velocity, s_.displacement))[1])(
+                                eqsig.AccSignal(rec, dt)))):
+                sub = {'long': kind, 'n': n, 'record': dty, 'dt': dt, 'trap': trap, 'entry': ent}
+                r.states += 1
+                ok, out = r.call('series', sub, fn)
+                if not ok:
+                    continue
+                try:
+                    v, d = (np.asarray(x, dtype=float) for x in out)
+                    assert v.shape == (n,) and d.shape == (n,), 'series of the record length expected, got %r %r' % (v.shape, d.shape)
+                    v, d = v[:: max(1, n // 400)], d[:: max(1, n // 400)]
+                except Exception as e:
+                    r.fail('series', sub, 'malformed result: %s' % e)
+                    continue
+                r.expect_close('series.velocity', sub, v, vr, rtol=0, atol=tolr * sv, what='every %d-th sample' % max(1, n // 400))
+                r.expect_close('series.displacement', sub, d, dr, rtol=0, atol=tolr * sd, what='every %d-th sample' % max(1, n // 400))
+    return r
+
+
 def run_case(w):
+    if w and isinstance(w[0], str):
+        return run_long(w)
     r = Res()
     n = len(w)
     nz = any(w)
@@ -267,6 +338,32 @@ def run_case(w):
                 if ok:
                     r.expect_close('peaks.calc_peak', dict(s2, series=nm), out, float(np.max(np.abs(arr))), rtol=1e-12,
                                    atol=1e-300)
+    # ---- records held in single / half precision: the integrals are those of the record's VALUES (all values of the alphabet are exact in
+    # both types); tolerance 1e-6 of the series' scale, i.e. an implementation working in single precision on these short words passes,
+    # one that lets half-precision rounding accumulate does not
+    if n <= 5 and nz:
+        for dtx in (DTS[1], DTS[3]):
+            for trap in (True, False):
+                vref, dref = ref_series(w, dtx, trap)
+                vr, dr = fl(vref), fl(dref)
+                sv, sd = max(float(np.max(np.abs(vr))), amax * dtx), max(float(np.max(np.abs(dr))), amax * dtx * dtx)
+                for nm, dty in (('float32', np.float32), ('float16', np.float16)):
+                    rec = np.array(w, dtype=dty)
+                    r.cls('low-precision-record')
+                    for ent, fn in (('array', lambda: displacements.calc_velo_and_disp_from_accel_arr(rec, dtx, trap=trap)),
+                                    ('object', lambda: (lambda s_: (s_.generate_displacement_and_velocity_series(trap=trap), (s_.velocity, s_.displacement))[1])(
+                                        eqsig.AccSignal(rec, dtx)))):
+                        s2 = {'w': w, 'dt': dtx, 'trap': trap, 'entry': ent, 'record': nm}
+                        ok, out = r.call('series', s2, fn)
+                        if not ok:
+                            continue
+                        try:
+                            v, d = out
+                        except Exception:
+                            r.fail('series', s2, 'result is not a (velocity, displacement) pair', observed=out)
+                            continue
+                        r.expect_close('series.velocity', s2, v, vr, rtol=0, atol=1e-6 * sv)
+                        r.expect_close('series.displacement', s2, d, dr, rtol=0, atol=1e-6 * sd)
     # ---- time steps that are not round decimal numbers (the step is used as given: no rounding, at array and at object level)
     if n <= 4 and nz:
         for dtx in ODD_DTS:
@@ -371,6 +468,12 @@ def run_case(w):
 
 
 def snippet(case, v):
+    if case and isinstance(case[0], str):
+        return ("import numpy as np, eqsig\nfrom eqsig import displacements\nfrom mcheck.props.c08 import long_record   # run with PYTHONPATH=/verif\n"
+                "sub = %r\nnum, den = long_record(sub['long'], sub['n']); rec = (num / den).astype(sub['record'])\n"
+                "v, d = displacements.calc_velo_and_disp_from_accel_arr(rec, sub['dt'], trap=sub['trap']); print(v[-3:], d[-3:])\n"
+                "s = eqsig.AccSignal(rec, sub['dt']); s.generate_displacement_and_velocity_series(trap=sub['trap']); print(s.velocity[-3:], s.displacement[-3:])\n"
+                % (v.get('sub'),))
     return ("import numpy as np, eqsig\nfrom eqsig import displacements\n"
             "w = %r\nsub = %r\n"
             "print(displacements.calc_velo_and_disp_from_accel_arr(np.array(w, float), sub['dt'], trap=sub.get('trap', True)))\n"
